@@ -147,6 +147,8 @@ def design_legs(ctx, configs, invariants, liveness, neg_invariants, h, rnd, n_si
         if liveness:
             model.mc(MC, consts, ctx, name + "_live", properties=["AllCallsEnd"], view=None, workers=16, timeout=1500, spec="FairSpec",
                      count=False)
+        if h is None:
+            continue
         scen = scen_for(calls, nw, wq, rq, judge)
         behs = simulate(consts, n_sim, 400, rnd.randint(1, 10 ** 6), ctx, name)
         for b in behs:
@@ -168,7 +170,7 @@ def design_legs(ctx, configs, invariants, liveness, neg_invariants, h, rnd, n_si
             elif conf["code_to_spec"]["first_rejection"] is None:
                 conf["code_to_spec"]["first_rejection"] = {"config": name, "matched": m, "of": t, "step": tr[m], "schedule": w.schedule[:m + 2]}
     a, b = conf["spec_to_code"], conf["code_to_spec"]
-    conf["status"] = "bound" if a["followed"] == a["behaviours"] and b["accepted"] == b["executions"] else "diverged"
+    conf["status"] = "not-run" if h is None else ("bound" if a["followed"] == a["behaviours"] and b["accepted"] == b["executions"] else "diverged")
     ctx.extra["conformance_with_FunctorPool_tla"] = conf
     if conf["status"] == "diverged":
         ctx.note("conformance with the implementation-level model is lost (not a violation by itself): %s" % json.dumps(conf)[:600])
